@@ -330,6 +330,7 @@ class Flattener:
         self.refused = []  # (caller qual, helper qual, reason)
         self._done = {}
         self._active = []
+        self.globals_needed = {}  # caller qual -> module globals written by helpers inlined into it
 
     # ---------------------------------------------------------------- callee resolution
     def _resolve(self, fn, call):
@@ -381,7 +382,15 @@ class Flattener:
         is_gen = any(isinstance(n, (ast.Yield, ast.YieldFrom)) for n in ast.walk(gnode))
         if is_gen != generator:
             raise CannotInline("generator helper" if is_gen else "not a generator")
+        gl_names = set()
         for n in ast.walk(gnode):
+            if isinstance(n, ast.Global) and g.module == fn.module and g.parent is None and fn.parent is None:
+                # a helper of the same module that writes a module global: the caller declares the name global as well
+                # (possible when the caller has no local of that name)
+                if set(n.names) & (caller_names - self.globals_needed.get(fn.qual, set())) or set(n.names) & set(fn.params):
+                    raise CannotInline("global %s is a local name of the caller" % sorted(n.names))
+                gl_names |= set(n.names)
+                continue
             if isinstance(n, (ast.Await, ast.Global, ast.Nonlocal)) or (isinstance(n, (ast.FunctionDef, ast.AsyncFunctionDef, ast.ClassDef)) and n is not gnode):
                 raise CannotInline("helper contains %s" % type(n).__name__)
             if isinstance(n, ast.Call) and isinstance(n.func, ast.Name) and n.func.id in ("eval", "exec", "compile", "locals", "globals", "vars"):
@@ -390,7 +399,11 @@ class Flattener:
                 raise CannotInline("generator returns a value")
             if generator and isinstance(n, ast.Yield) and not (isinstance(getattr(n, "_parent", None), ast.Expr)):
                 raise CannotInline("yield used as an expression")
-        body = [s for s in gnode.body if not (isinstance(s, ast.Expr) and isinstance(s.value, ast.Constant) and isinstance(s.value.value, str))]
+        body = [s for s in gnode.body if not (isinstance(s, ast.Expr) and isinstance(s.value, ast.Constant) and isinstance(s.value.value, str)) and not (gl_names and isinstance(s, ast.Global))]
+        if gl_names:
+            if any(isinstance(x, ast.Global) for s_ in body for x in ast.walk(s_)):
+                raise CannotInline("helper contains a nested Global")
+            self.globals_needed.setdefault(fn.qual, set()).update(gl_names)
         if sum(1 for _ in ast.walk(gnode) if isinstance(_, ast.stmt)) > MAX_STMTS:
             raise CannotInline("helper too large")
         self.counter += 1
@@ -440,7 +453,7 @@ class Flattener:
                 if p not in defaults or not isinstance(defaults[p], (ast.Constant, ast.Name, ast.Attribute, ast.Tuple, ast.UnaryOp)):
                     raise CannotInline("parameter %s unbound" % p)
                 bound[p] = defaults[p]
-        stored = _stored_names(gnode)
+        stored = _stored_names(gnode) - gl_names
         inner_args = {x.arg for n in ast.walk(gnode) if isinstance(n, ast.Lambda) for x in n.args.args}
         mapping = {}
         consts = {}
@@ -1025,6 +1038,10 @@ def flatten_model(model):
             continue
         new = fl.flat_node(fn)
         if new is not fn.node:
+            need = fl.globals_needed.get(q, set()) - {nm for st in new.body if isinstance(st, ast.Global) for nm in st.names}
+            if need:
+                lead = 1 if new.body and isinstance(new.body[0], ast.Expr) and isinstance(new.body[0].value, ast.Constant) else 0
+                new.body.insert(lead, ast.copy_location(ast.Global(names=sorted(need)), new.body[0]))
             fn.orig_node = fn.node
             fn.node = new
     _absorb(model, fl)
@@ -1240,6 +1257,19 @@ def _desugar_body(stmts):
                 new_st._annotation = st.annotation
                 st = new_st
                 changed = True
+        if isinstance(st, ast.If) and not st.orelse and isinstance(st.test, ast.BoolOp) and isinstance(st.test.op, ast.And):
+            # `if A and (x := E) is not None: BODY` (no else): `if A:` / `if (x := E) is not None: BODY`, so that the
+            # assignment expression leads its own test and can be hoisted
+            k = next((i_ for i_, v_ in enumerate(st.test.values) if i_ > 0 and _leading_walrus(v_) is not None), None)
+            if k is not None:
+                vals = st.test.values
+                outer_t = vals[0] if k == 1 else ast.copy_location(ast.BoolOp(op=ast.And(), values=vals[:k]), st.test)
+                inner_t = vals[k] if k == len(vals) - 1 else ast.copy_location(ast.BoolOp(op=ast.And(), values=vals[k:]), st.test)
+                inner = ast.copy_location(ast.If(test=inner_t, body=st.body, orelse=[]), st)
+                new, _ = _desugar_body([ast.copy_location(ast.If(test=outer_t, body=[inner], orelse=[]), st)])
+                out += new
+                changed = True
+                continue
         hoisted = _hoist_leading_walrus(st)
         if hoisted:
             new, _ = _desugar_body(hoisted)
@@ -1253,9 +1283,28 @@ def _desugar_body(stmts):
                 out += new
                 changed = True
                 continue
-        nx = _next_search(st)
+        rd = _reduce_to_loop(st)
+        if rd is not None:
+            new, _ = _desugar_body(rd)
+            out += new
+            changed = True
+            continue
+        nx = _next_search(st, out[-1] if out else None)
         if nx is not None:
+            nx, _ = _desugar_body(nx)
             out += nx
+            changed = True
+            continue
+        if isinstance(st, ast.Return) and isinstance(st.value, ast.BoolOp) and len(st.value.values) >= 2 and _simple_operand(st.value.values[0]):
+            # `return A or B` (A a name / attribute chain): `if A: return A` / `else: return B`; `return A and B`: `if A: return B` / `else: return A`
+            bo = st.value
+            rest = bo.values[1] if len(bo.values) == 2 else ast.copy_location(ast.BoolOp(op=bo.op, values=bo.values[1:]), bo)
+            first = ast.copy_location(ast.Return(value=_clone(bo.values[0])), st)
+            other = ast.copy_location(ast.Return(value=rest), st)
+            a_, _ = _desugar_body([first])
+            b_, _ = _desugar_body([other])
+            body, orelse = (a_, b_) if isinstance(bo.op, ast.Or) else (b_, a_)
+            out.append(ast.copy_location(ast.If(test=_clone(bo.values[0]), body=body, orelse=orelse), st))
             changed = True
             continue
         if isinstance(st, ast.Return) and isinstance(st.value, ast.IfExp):
@@ -1267,6 +1316,15 @@ def _desugar_body(stmts):
             out.append(ast.copy_location(ast.If(test=e.test, body=body, orelse=orelse), st))
             changed = True
         elif isinstance(st, ast.Assign) and isinstance(st.value, ast.IfExp) and len(st.targets) == 1 and isinstance(st.targets[0], ast.Name):
+            e = st.value
+            a = ast.copy_location(ast.Assign(targets=[_clone(st.targets[0])], value=e.body, lineno=st.lineno), st)
+            b = ast.copy_location(ast.Assign(targets=[_clone(st.targets[0])], value=e.orelse, lineno=st.lineno), st)
+            body, _ = _desugar_body([a])
+            orelse, _ = _desugar_body([b])
+            out.append(ast.copy_location(ast.If(test=e.test, body=body, orelse=orelse), st))
+            changed = True
+        elif isinstance(st, ast.Assign) and isinstance(st.value, ast.IfExp) and len(st.targets) == 1 and isinstance(st.targets[0], ast.Tuple) and all(isinstance(t_, ast.Name) for t_ in st.targets[0].elts):
+            # `a, b = P if C else Q`
             e = st.value
             a = ast.copy_location(ast.Assign(targets=[_clone(st.targets[0])], value=e.body, lineno=st.lineno), st)
             b = ast.copy_location(ast.Assign(targets=[_clone(st.targets[0])], value=e.orelse, lineno=st.lineno), st)
@@ -1288,9 +1346,69 @@ def _desugar_body(stmts):
             for t_, v_ in zip(st.targets[0].elts, st.value.elts):
                 out.append(ast.copy_location(ast.Assign(targets=[t_], value=v_, lineno=st.lineno), st))
             changed = True
+        elif _argument_ifexp(st) is not None:
+            # `return f(a, X if C else Y)` with f and the other arguments free of effects: `if C: return f(a, X)` / `else: return f(a, Y)`
+            call, slot, e = _argument_ifexp(st)
+            arms = []
+            for val in (e.body, e.orelse):
+                st2 = _clone(st)
+                call2 = st2.value
+                if isinstance(slot, int):
+                    call2.args[slot] = _clone(val)
+                else:
+                    for kw in call2.keywords:
+                        if kw.arg == slot:
+                            kw.value = _clone(val)
+                arm, _ = _desugar_body([st2])
+                arms.append(arm)
+            out.append(ast.copy_location(ast.If(test=e.test, body=arms[0], orelse=arms[1]), st))
+            changed = True
         else:
             out.append(st)
     return out, changed
+
+
+def _simple_operand(x):
+    if isinstance(x, (ast.Name, ast.Constant)):
+        return True
+    return isinstance(x, ast.Attribute) and _simple_operand(x.value)
+
+
+def _argument_ifexp(st):
+    """(call, position or keyword, the conditional expression) when the statement is `return CALL` and exactly one direct argument of CALL is a conditional expression while the callee expression and every
+    other argument are names, attribute chains or constants (their evaluation can move behind the test)."""
+    if isinstance(st, ast.Return):
+        call = st.value  # (returns only: an assignment split in two would double the construction sites the rules count)
+    else:
+        return None
+    if not isinstance(call, ast.Call):
+        return None
+
+    def simple(x):
+        if isinstance(x, (ast.Name, ast.Constant)):
+            return True
+        return isinstance(x, ast.Attribute) and simple(x.value)
+
+    found = None
+    for i, a in enumerate(call.args):
+        if isinstance(a, ast.IfExp):
+            if found is not None:
+                return None
+            found = (i, a)
+        elif not simple(a):
+            return None
+    for kw in call.keywords:
+        if kw.arg is None:
+            return None
+        if isinstance(kw.value, ast.IfExp):
+            if found is not None:
+                return None
+            found = (kw.arg, kw.value)
+        elif not simple(kw.value):
+            return None
+    if found is None or not simple(call.func):
+        return None
+    return call, found[0], found[1]
 
 
 def _leading_walrus(e):
@@ -1455,7 +1573,42 @@ def _match_to_ifs(st):
 _NEXT_COUNTER = [0]
 
 
-def _next_search(st):
+def _reduce_to_loop(st):
+    """`x = reduce(lambda acc, item: BODY, ITER, INIT)` (also `functools.reduce`, also returned) -> the fold it abbreviates:
+    `acc = INIT` / `for item in ITER: acc = BODY` / `x = acc`, with the lambda's parameters renamed apart."""
+    if isinstance(st, ast.Assign) and len(st.targets) == 1 and isinstance(st.targets[0], ast.Name):
+        call, is_ret = st.value, False
+    elif isinstance(st, ast.Return) and st.value is not None:
+        call, is_ret = st.value, True
+    else:
+        return None
+    if not (isinstance(call, ast.Call) and len(call.args) == 3 and not call.keywords and isinstance(call.args[0], ast.Lambda)):
+        return None
+    f = call.func
+    if not ((isinstance(f, ast.Name) and f.id == "reduce") or (isinstance(f, ast.Attribute) and f.attr == "reduce" and isinstance(f.value, ast.Name) and f.value.id == "functools")):
+        return None
+    lam = call.args[0]
+    la = lam.args
+    if len(la.args) != 2 or la.vararg or la.kwarg or la.kwonlyargs or la.defaults or la.posonlyargs:
+        return None
+    _NEXT_COUNTER[0] += 1
+    acc, item = la.args[0].arg, la.args[1].arg
+    ren = {acc: "%s__r%d" % (acc, _NEXT_COUNTER[0]), item: "%s__r%d" % (item, _NEXT_COUNTER[0])}
+    if not is_ret and not any(isinstance(x_, ast.Name) and x_.id == st.targets[0].id for a_ in call.args for x_ in ast.walk(a_)):
+        ren[acc] = st.targets[0].id  # the target itself accumulates (it is not read by the fold)
+    body = _Rename(ren).visit(_clone(lam.body))
+    init = ast.copy_location(ast.Assign(targets=[ast.Name(id=ren[acc], ctx=ast.Store())], value=call.args[2], lineno=st.lineno), st)
+    step = ast.copy_location(ast.Assign(targets=[ast.Name(id=ren[acc], ctx=ast.Store())], value=body, lineno=st.lineno), st)
+    loop = ast.copy_location(ast.For(target=ast.Name(id=ren[item], ctx=ast.Store()), iter=call.args[1], body=[step], orelse=[], type_comment=None), st)
+    res_ = ast.Name(id=ren[acc], ctx=ast.Load())
+    last = ast.copy_location(ast.Return(value=res_), st) if is_ret else ast.copy_location(ast.Assign(targets=[_clone(st.targets[0])], value=res_, lineno=st.lineno), st)
+    outl = [init, loop, last] if (is_ret or ren[acc] != st.targets[0].id) else [init, loop]
+    for x_ in outl:
+        ast.fix_missing_locations(x_)
+    return outl
+
+
+def _next_search(st, prev=None):
     """`x = next((E for T in IT if C), D)` -> the search loop it abbreviates:
     `for T in IT: if C: x = E; break` / `else: x = D` (`return next(...)` likewise, with returns).  The comprehension
     variable is renamed to a fresh name, so nothing leaks."""
@@ -1474,6 +1627,25 @@ def _next_search(st):
     g = gen.generators[0]
     if not isinstance(call.args[1], (ast.Constant, ast.Name)):
         return None
+    # a search over a literal tuple of names (or over a local bound to one by the statement just before): the if/elif
+    # chain it abbreviates - `next((l for l in (lo, hi) if l is not None), 0.0)` is `lo if lo is not None else hi if ...`
+    lit = g.iter
+    if isinstance(lit, ast.Name) and isinstance(prev, ast.Assign) and len(prev.targets) == 1 and isinstance(prev.targets[0], ast.Name) and prev.targets[0].id == lit.id:
+        lit = prev.value
+    if isinstance(lit, (ast.Tuple, ast.List)) and 1 <= len(lit.elts) <= 4 and isinstance(g.target, ast.Name) and all(_simple_operand(e_) for e_ in lit.elts):
+        chain = mk(call.args[1], st)
+        for e_ in reversed(lit.elts):
+            env = {g.target.id: e_}
+            conds = [_SubstExpr(env).visit(_clone(c)) for c in g.ifs]
+            hit_ = mk(_SubstExpr(env).visit(_clone(gen.elt)), st)
+            if not conds:
+                chain = hit_
+                continue
+            test_ = conds[0] if len(conds) == 1 else ast.BoolOp(op=ast.And(), values=conds)
+            chain = [ast.copy_location(ast.If(test=test_, body=hit_, orelse=chain), st)]
+        for x_ in chain:
+            ast.fix_missing_locations(x_)
+        return chain
     tnames = {y.id for y in ast.walk(g.target) if isinstance(y, ast.Name)}
     _NEXT_COUNTER[0] += 1
     ren = {n_: "%s__n%d" % (n_, _NEXT_COUNTER[0]) for n_ in tnames}
@@ -1742,6 +1914,37 @@ def _expand_tables_body(model, fn, stmts, budget):
                 if uses == 2 and len(prev) == 1 and prev[0] == len(out) - 1:
                     st.iter = out.pop(prev[0]).value
         if isinstance(st, ast.For) and not st.orelse and isinstance(st.iter, ast.Tuple) and 1 <= len(st.iter.elts) <= 4 and isinstance(st.target, ast.Tuple) \
+                and any(isinstance(t, ast.Tuple) for t in st.target.elts) and all(isinstance(r, ast.Tuple) and len(r.elts) == len(st.target.elts) for r in st.iter.elts):
+            # nested targets `for a, (b, c) in ((x, T), ...)`: when every element in a nested position is a literal tuple of
+            # that shape, or a local bound once to one, the targets and the rows are flattened first
+            def _local_tuple(nm):
+                binds = [x for x in ast.walk(fn.node) if isinstance(x, ast.Name) and x.id == nm and isinstance(x.ctx, ast.Store)]
+                asg = [o for o in ast.walk(fn.node) if isinstance(o, ast.Assign) and len(o.targets) == 1 and isinstance(o.targets[0], ast.Name) and o.targets[0].id == nm and isinstance(o.value, ast.Tuple)]
+                return asg[0].value if len(binds) == 1 and len(asg) == 1 else None
+
+            def _flat(t, e):
+                """[(name target, element)] or None"""
+                if isinstance(t, ast.Name):
+                    return [(t, e)]
+                if isinstance(t, ast.Tuple) and not any(isinstance(x, ast.Starred) for x in t.elts):
+                    if isinstance(e, ast.Name):
+                        e = _local_tuple(e.id)
+                    if isinstance(e, ast.Tuple) and len(e.elts) == len(t.elts):
+                        acc = []
+                        for t2, e2 in zip(t.elts, e.elts):
+                            sub_ = _flat(t2, e2)
+                            if sub_ is None:
+                                return None
+                            acc += sub_
+                        return acc
+                return None
+
+            rows_ = [_flat(st.target, r) for r in st.iter.elts]
+            if all(r is not None for r in rows_) and len({len(r) for r in rows_}) == 1:
+                st.target = ast.copy_location(ast.Tuple(elts=[t for t, _e in rows_[0]], ctx=ast.Store()), st.target)
+                st.iter = ast.copy_location(ast.Tuple(elts=[ast.Tuple(elts=[_clone(e) for _t, e in r], ctx=ast.Load()) for r in rows_], ctx=ast.Load()), st.iter)
+                ast.fix_missing_locations(st)
+        if isinstance(st, ast.For) and not st.orelse and isinstance(st.iter, ast.Tuple) and 1 <= len(st.iter.elts) <= 4 and isinstance(st.target, ast.Tuple) \
                 and all(isinstance(t, ast.Name) for t in st.target.elts) and all(isinstance(r, ast.Tuple) and len(r.elts) == len(st.target.elts) for r in st.iter.elts) \
                 and not _own_breaks(st.body) and _without_continue(st.body) is not None:
             st.body = _without_continue(st.body)
@@ -1854,13 +2057,21 @@ def _sink_body(stmts, budget):
                 changed |= _sink_body(sub, budget)
         for h in getattr(st, "handlers", []) or []:
             changed |= _sink_body(h.body, budget)
-    while len(stmts) >= 2 and budget[0] > 0 and isinstance(stmts[-1], ast.Return) and isinstance(stmts[-1].value, ast.Name):
+    while len(stmts) >= 2 and budget[0] > 0 and isinstance(stmts[-1], ast.Return) and stmts[-1].value is not None:
         ret, S = stmts[-1], stmts[-2]
-        name = ret.value.id
         if not isinstance(S, (ast.If, ast.Try)) or (isinstance(S, ast.Try) and S.finalbody):
             break
-        if not any(isinstance(x, ast.Name) and x.id == name and isinstance(x.ctx, ast.Store) for x in ast.walk(S)):
-            break
+        stored_in_S = {x.id for x in ast.walk(S) if isinstance(x, ast.Name) and isinstance(x.ctx, ast.Store)}
+        if isinstance(ret.value, ast.Name):
+            if ret.value.id not in stored_in_S:
+                break
+        else:
+            # `return C(q, v)` after arms that each choose (q, v): the same motion, for a small constructing expression
+            # at least two of whose operands are chosen in the arms (their pairing is what the arms decide)
+            if not isinstance(S, ast.If) or not isinstance(ret.value, (ast.Call, ast.Tuple)) or sum(1 for _ in ast.walk(ret.value)) > 30:
+                break
+            if len({x.id for x in ast.walk(ret.value) if isinstance(x, ast.Name) and isinstance(x.ctx, ast.Load)} & stored_in_S) < 2:
+                break
         budget[0] -= 1
         stmts.pop()
         arms = []
@@ -1874,6 +2085,47 @@ def _sink_body(stmts, budget):
         changed = True
         for arm in arms:
             _sink_body(arm, budget)
+    return changed
+
+
+def _sink_chosen_calls(stmts, budget):
+    """`if c: f = A / else: f = B` directly followed by a statement that *calls* f: the statement is moved into both arms
+    (pure code motion), so that each arm applies the function it chose - `assert holds(x, limit)` after the arms that
+    pick `operator.gt` / `operator.ge` becomes one assertion per comparison."""
+    changed = False
+    for st in stmts:
+        if isinstance(st, (ast.FunctionDef, ast.AsyncFunctionDef, ast.ClassDef)):
+            continue
+        for fld in ("body", "orelse", "finalbody"):
+            sub = getattr(st, fld, None)
+            if isinstance(sub, list) and sub and isinstance(sub[0], ast.stmt):
+                changed |= _sink_chosen_calls(sub, budget)
+        for h in getattr(st, "handlers", []) or []:
+            changed |= _sink_chosen_calls(h.body, budget)
+    i = 0
+    while i + 1 < len(stmts):
+        S, N = stmts[i], stmts[i + 1]
+        i += 1
+        if not (isinstance(S, ast.If) and S.body and S.orelse and isinstance(N, (ast.Assert, ast.Expr, ast.Assign, ast.Return)) and budget[0] > 0):
+            continue
+        if _terminates(S.body) or _terminates(S.orelse):
+            continue
+        called = {x.func.id for x in ast.walk(N) if isinstance(x, ast.Call) and isinstance(x.func, ast.Name)}
+
+        def chosen(arm, nm):
+            return any(isinstance(a_, ast.Assign) and len(a_.targets) == 1 and isinstance(a_.targets[0], ast.Name) and a_.targets[0].id == nm
+                       and isinstance(a_.value, (ast.Name, ast.Attribute, ast.Lambda)) for a_ in arm)
+
+        if not any(chosen(S.body, nm) and chosen(S.orelse, nm) for nm in called):
+            continue
+        if sum(1 for _ in ast.walk(N)) > 60:
+            continue
+        budget[0] -= 1
+        S.body.append(_clone(N))
+        S.orelse.append(N)
+        del stmts[i]
+        i -= 1
+        changed = True
     return changed
 
 
@@ -1906,6 +2158,7 @@ def sink_returns(model):
             continue
         a_ = _sink_body(fn.node.body, [24])
         b_ = _merge_assign_return(fn.node.body)
+        b_ = _sink_chosen_calls(fn.node.body, [8]) or b_
         if a_ or b_:
             ast.fix_missing_locations(fn.node)
             relink(fn.node)
